@@ -675,6 +675,13 @@ fn run_case(case: &str, memo: &mut Option<Compiled>) {
                 let (obs, seen) = observe(memo.as_ref().unwrap(), &t);
                 if let Some(seen) = seen {
                     oracle_out = oracle(esc, &p, &t, &seen);
+                } else if let Some(toks) = oracle_parse(&to_pcs(esc, &p)) {
+                    // a pattern inside the defined notation must compile (multi-character collating
+                    // elements are outside it: POSIX locale has none)
+                    let has_seq = toks.iter().any(|t| matches!(t, Tok::Set { seqs, .. } if !seqs.is_empty()));
+                    if !has_seq {
+                        oracle_out = "FAIL:defined pattern rejected".into();
+                    }
                 }
                 obs
             });
@@ -729,7 +736,7 @@ fn main() {
 
     // 2. exhaustive small scope
     let mut r = Rng::new(opts.seed ^ 0xC04);
-    let (pmax, tmax) = if thorough { (4, 3) } else { (2, 3) };
+    let (pmax, tmax) = if thorough { (3, 3) } else { (2, 3) };
     let texts = all_strings(&TXT_ALPHA, tmax);
     for p in all_strings(&PAT_ALPHA, pmax) {
         for t in &texts {
@@ -741,18 +748,18 @@ fn main() {
             }
         }
     }
-    // longer exhaustive patterns, sampled texts
-    let (lo, hi, per, keep) = if thorough { (5, 6, 6, 40) } else { (3, 4, 4, 1) };
-    for len in lo..=hi {
-        // quick: every pattern of length 3, a 1/8 sample of length 4; thorough: samples of length 5 and 6
+    // longer patterns by enumeration with a stride, sampled texts:
+    //   quick:    length 3 all x 4 texts, length 4 every 8th x 4 texts (texts of length <= 3)
+    //   thorough: length 4 all x 12 texts (<= 4), length 5 every 4th x 4 texts (<= 4),
+    //             length 6 every 40th x 3 texts (<= 5)
+    let plan: Vec<(usize, usize, usize, usize)> = if thorough {
+        vec![(4, 1, 12, 4), (5, 4, 4, 4), (6, 40, 3, 5)]
+    } else {
+        vec![(3, 1, 4, 3), (4, 8, 4, 3)]
+    };
+    for (len, stride, per, tlen) in plan {
+        let pool = all_strings(&TXT_ALPHA, tlen);
         let total = PAT_ALPHA.len().pow(len as u32);
-        let stride = if thorough {
-            total / (keep * 20_000) + 1
-        } else if len == 3 {
-            1
-        } else {
-            8
-        };
         let mut k = r.below(stride);
         while k < total {
             let mut p = String::new();
@@ -761,9 +768,9 @@ fn main() {
                 p.push(PAT_ALPHA[x % PAT_ALPHA.len()]);
                 x /= PAT_ALPHA.len();
             }
+            let esc = p.contains('\\') && r.chance(1, 2);
             for _ in 0..per {
-                let t = r.pick(&texts).clone();
-                let esc = p.contains('\\') && r.chance(1, 2);
+                let t = r.pick(&pool).clone();
                 go(mcase(esc, &p, &t));
             }
             k += stride;
